@@ -161,7 +161,7 @@ Proof.
   destruct r1; try (inversion E; subst; exact H1).
   match type of E with (let '(r2, w2) := ?X in _) = _ => destruct X as [r2 w2] eqn:E2 end.
   assert (H2 : UINV RT w2).
-  { destruct (has ev (EV_IN + EV_ERR + EV_HUP)); [|inversion E2; subst; exact H1]. eapply el_read_inv; eauto. }
+  { destruct (has ev (EV_IN + EV_PRI + EV_ERR + EV_HUP)); [|inversion E2; subst; exact H1]. eapply el_read_inv; eauto. }
   destruct r2; try (inversion E; subst; exact H2).
   destruct (has ev EV_RDHUP && c_opened (wc w2 cid)); [|inversion E; subst; exact H2].
   destruct (negb (has ev EV_IN)).
